@@ -59,7 +59,7 @@ def ts_valid(tok):
 
 def ts_wire(tok):
     """what a reader is shown: only positive times"""
-    if tok in ("", "T"):
+    if tok == "" or tok[0] == "T":
         return tok
     return tok if ts_valid(tok) else ""
 
@@ -443,6 +443,7 @@ def _check_case(ops, impl, skip_lines, stats):
             kind = a[5:]
     o = Oracle(kind)
     bad = []
+    opno = 0
     stats["lines"] = stats.get("lines", 0) + max(0, min(len(ops), len(impl)) - 1)
     for i in range(1, min(len(ops), len(impl))):
         f = ops[i].split(" ")
@@ -461,6 +462,8 @@ def _check_case(ops, impl, skip_lines, stats):
             if i in skip_lines:
                 o.forget(None)     # a listed finding changed what the reload shows
             continue
+        if f[0] != "compact":
+            opno += 1             # server stamps are written T<number of the request that took them>
         if i in skip_lines:
             if f[0] in READ_ONLY:
                 o.forget_existence()    # a read cannot change records; it may have summoned the swamp
@@ -468,7 +471,7 @@ def _check_case(ops, impl, skip_lines, stats):
                 o.forget(o.keys_of(f) or None)
             o.learn(f, got)
             continue
-        exp, commit = o.expect(f)
+        exp, commit = o.expect(f, "T%d" % opno)
         if exp is None:
             stats["unknown"] = stats.get("unknown", 0) + 1
             o.forget(o.keys_of(f) if f[0] in ("set", "inc", "push", "u32del", "shift", "del") else [])
